@@ -50,6 +50,26 @@ Theorem C07_completes_at_own_ack : forall evs pre h rk id mid a post,
   view h (run sig_init evs) = repeat [] T ++ [Done h (ack_result rk a)] :: repeat [] (length post).
 Proof. exact completes_at_own_ack. Qed.
 
+(* "any order and delay of the broker's answers" includes zero delay: the waiter is registered
+   before the request is written ([Start] = register-then-write), so an own acknowledgement that
+   is the very next event after the Start — processed by the reader before Transport.Write has
+   even returned — completes the request (QoS 2: PUBREC right after the PUBLISH, PUBCOMP right
+   after the PUBREL) *)
+Theorem C07_ack_right_after_write_completes : forall evs pre h rk id a post,
+  wf evs = true -> evs = pre ++ Start h rk id :: Recv a :: post ->
+  first_kind rk <> KPubRec -> own_ack (first_kind rk) id (Recv a) = true ->
+  firstn (S (length pre)) (closings (run sig_init evs)) = repeat false (S (length pre)) ->
+  In (Done h (ack_result rk a)) (nth (S (length pre)) (run sig_init evs) []).
+Proof. exact ack_right_after_write_completes. Qed.
+
+Theorem C07_qos2_acks_right_after_writes_complete : forall evs pre h id a1 a2 post,
+  wf evs = true -> evs = pre ++ Start h RPub2 id :: Recv a1 :: Resume h :: Recv a2 :: post ->
+  own_ack KPubRec id (Recv a1) = true -> own_ack KPubComp id (Recv a2) = true ->
+  firstn (length pre + 3) (closings (run sig_init evs)) = repeat false (length pre + 3) ->
+  In (WPubRel h id) (nth (length pre + 2) (run sig_init evs) []) /\
+  In (Done h (RSuccess [])) (nth (length pre + 3) (run sig_init evs) []).
+Proof. exact qos2_acks_right_after_writes_complete. Qed.
+
 (* the same for QoS 2: PUBREL at the first Resume after the first PUBREC, return at the first
    PUBCOMP after that, nothing else; m1 and m2 may contain any number of PUBCOMPs with the
    request's identifier *)
@@ -166,6 +186,8 @@ Proof. exact shared_id_first_never_completes. Qed.
 Print Assumptions C07_each_request_as_if_alone.
 Print Assumptions C07_completes_only_on_own_ack.
 Print Assumptions C07_completes_at_own_ack.
+Print Assumptions C07_ack_right_after_write_completes.
+Print Assumptions C07_qos2_acks_right_after_writes_complete.
 Print Assumptions C07_qos2_completes_at_pubcomp.
 Print Assumptions C07_qos2_order.
 Print Assumptions C07_foreign_acks_inert.
